@@ -696,6 +696,28 @@ func runC14(tier string, seed uint64) {
 				nontrivial(fmt.Sprint("uploads", i, pd, lim))
 			}
 		}
+		// markers behind the last upload: made up by the client, or handed out by the server before the uploads
+		// behind them were aborted. The listing resumes after them: nothing is left, and the answer says so
+		if len(ups) > 0 {
+			s.ListUploads(b, "", "", "zzzz", "", -1)
+			s.ListUploads(b, "", "/", "zzzz", "", 1)
+			s.ListUploads(b, "b", "", "zzzz", "", 2)
+			if first := s.ListUploads(b, "", "", "", "", 1); first.Truncated && first.NextKey != "" && i%2 == 1 {
+				// every upload from the marker's key on goes away; then the walk goes on from the markers it holds
+				var kept []*upl
+				for _, u := range ups {
+					if u.key < first.NextKey {
+						kept = append(kept, u)
+						continue
+					}
+					s.Abort(b, u.key, u.id)
+				}
+				ups = kept
+				s.ListUploads(b, "", "", first.NextKey, first.NextID, 1)
+				s.ListUploads(b, "", "", first.NextKey, "", -1)
+				s.ListUploads(b, "", "", "", "", -1)
+			}
+		}
 		// when the last upload is gone (aborted, every second history; completed or aborted as the history
 		// had it, otherwise) the bucket has had uploads and lists none
 		if i%2 == 0 {
